@@ -90,6 +90,8 @@ pub fn run(prop: &str, runs: u64, seed: u64) -> i32 {
     .arg(format!("-runs={}", runs))
     .arg(format!("-seed={}", if seed % 0xffff_ffff == 0 { 1 } else { seed % 0xffff_ffff }))
     .args(["-max_len=1024", "-len_control=0", "-print_final_stats=1", "-timeout=60", "-rss_limit_mb=4096"])
+    // fixed work (-runs) is the budget; the wall-clock cap only stops a stage whose cases are slow (a stop is not a verdict)
+    .arg(format!("-max_total_time={}", std::env::var("VERIF_FUZZ_MAX_S").ok().and_then(|v| v.parse::<u64>().ok()).unwrap_or(900)))
     .arg(format!("-artifact_prefix={}/", artifacts.display()))
     .output();
   let o = match o {
